@@ -39,6 +39,11 @@ def WDep.dependency (from_ to : Key) : WDep := { from_ := from_, to := to, contr
     `addEdgeWithMappings(from, to, noControl=true, noData=false)` -/
 def WDep.noDirect (from_ to : Key) : WDep := { from_ := from_, to := to, control := false, data := true }
 
+/-- the dependency `addEdgeWithMappings(from, to, noControl, noData)` creates: a control edge
+    iff `!noControl`, a data edge iff `!noData` -/
+def WDep.ofFlags (from_ to : Key) (flags : Bool × Bool) : WDep :=
+  { from_ := from_, to := to, control := !flags.1, data := !flags.2 }
+
 structure WorkflowDef (V : Type) where
   nodes : List (Key × (V → Except Err V))
   deps : List WDep
